@@ -130,6 +130,50 @@ fn boundary() -> Vec<String> {
             _ => {}
         }
     }
+    // C13, the iterator structs as iterators (no model for these: `std` side by side): double-ended / exact-size use of
+    // `Splice`, `Drain`, `IntoIter`, and the by-reference `IntoIterator` impls
+    {
+        let b = bumpalo::Bump::new();
+        let base: std::vec::Vec<u32> = (1..=8).collect();
+        fn mk<'a>(b: &'a bumpalo::Bump) -> bumpalo::collections::Vec<'a, u32> {
+            bumpalo::collections::Vec::from_iter_in(1..=8u32, b)
+        }
+        let mut glue = |name: &str, c: String, s: String| {
+            trace.push_str(&format!("\n# glue {} crate={} std={}", name, c, s));
+            if c != s {
+                fails.push(format!("ORACLE C13 std-mismatch boundary=glue-{} crate={} std={}", name, c, s));
+            }
+        };
+        for (lo, hi, repl) in [(1usize, 4usize, vec![10u32, 20]), (0, 8, vec![]), (2, 2, vec![7, 8, 9]), (3, 7, vec![1, 2, 3, 4, 5, 6])] {
+            let (mut cv, mut sv) = (mk(&b), base.clone());
+            let c: std::vec::Vec<u32> = cv.splice(lo..hi, repl.clone()).rev().collect();
+            let s: std::vec::Vec<u32> = sv.splice(lo..hi, repl.clone()).rev().collect();
+            glue(&format!("splice-rev-{}-{}", lo, hi), format!("{:?}/{:?}", c, &cv[..]), format!("{:?}/{:?}", s, sv));
+            let (mut cv, mut sv) = (mk(&b), base.clone());
+            let c = { let mut it = cv.splice(lo..hi, repl.clone()); let h0 = it.size_hint(); let x = (it.next(), it.next_back(), it.next_back(), it.next()); (h0, x, it.size_hint(), it.len()) };
+            let s = { let mut it = sv.splice(lo..hi, repl.clone()); let h0 = it.size_hint(); let x = (it.next(), it.next_back(), it.next_back(), it.next()); (h0, x, it.size_hint(), it.len()) };
+            glue(&format!("splice-mixed-{}-{}", lo, hi), format!("{:?}/{:?}", c, &cv[..]), format!("{:?}/{:?}", s, sv));
+            let (mut cv, mut sv) = (mk(&b), base.clone());
+            let c = { let mut it = cv.drain(lo..hi); let h0 = it.size_hint(); let x = (it.next_back(), it.next(), it.next_back()); (h0, x, it.size_hint()) };
+            let s = { let mut it = sv.drain(lo..hi); let h0 = it.size_hint(); let x = (it.next_back(), it.next(), it.next_back()); (h0, x, it.size_hint()) };
+            glue(&format!("drain-mixed-{}-{}", lo, hi), format!("{:?}/{:?}", c, &cv[..]), format!("{:?}/{:?}", s, sv));
+        }
+        let (cv, sv) = (mk(&b), base.clone());
+        let c = { let mut it = cv.into_iter(); let h0 = it.size_hint(); let x = (it.next(), it.next_back(), it.next()); (h0, x, it.size_hint(), it.as_slice().to_vec(), it.count()) };
+        let s = { let mut it = sv.into_iter(); let h0 = it.size_hint(); let x = (it.next(), it.next_back(), it.next()); (h0, x, it.size_hint(), it.as_slice().to_vec(), it.count()) };
+        glue("into-iter-mixed", format!("{:?}", c), format!("{:?}", s));
+        let (mut cv, mut sv) = (mk(&b), base.clone());
+        for x in &mut cv { *x += 1; }
+        for x in &mut sv { *x += 1; }
+        let c: std::vec::Vec<u32> = (&cv).into_iter().rev().copied().collect();
+        let s: std::vec::Vec<u32> = (&sv).into_iter().rev().copied().collect();
+        glue("by-ref-iter", format!("{:?}", c), format!("{:?}", s));
+        let zc: BVec<()> = BVec::from_iter_in(std::iter::repeat(()).take(5), &b);
+        let zs: std::vec::Vec<()> = vec![(); 5];
+        let c = { let mut it = zc.into_iter(); (it.size_hint(), it.next().is_some(), it.next_back().is_some(), it.size_hint(), it.count()) };
+        let s = { let mut it = zs.into_iter(); (it.size_hint(), it.next().is_some(), it.next_back().is_some(), it.size_hint(), it.count()) };
+        glue("into-iter-zst", format!("{:?}", c), format!("{:?}", s));
+    }
     let mut out = vec![trace.trim_end().to_string()];
     out.extend(fails);
     out
